@@ -84,9 +84,10 @@ def host_sim(tmp, target, text, name):
     import cffi
 
     ffi = cffi.FFI()
-    ffi.cdef("void launch_ocl(int n, double* y, int* cnt); void launch_cuda(int n, int grid, int block, double* y, int* cnt);")
+    ffi.cdef("void launch_ocl(int n, double* y, int* cnt); void launch_ocl2(int n, int nthreads, double* y, int* cnt); void launch_cuda(int n, int grid, int block, double* y, int* cnt);")
     body = HOST_SHIM + text + r"""
 void launch_ocl(int n, double* y, int* cnt){ for (_gid = 0; _gid < n; _gid++) vk(n, y, cnt); }
+void launch_ocl2(int n, int nthreads, double* y, int* cnt){ for (_gid = 0; _gid < nthreads; _gid++) vk(n, y, cnt); }
 void launch_cuda(int n, int grid, int block, double* y, int* cnt){
   blockDim.x = block;
   for (blockIdx.x = 0; blockIdx.x < grid; blockIdx.x++)
@@ -119,43 +120,48 @@ def bounded_c16(tier, seed):
 
     tmp = tempfile.mkdtemp(prefix="verif_c16_")
     try:
-        # ---- (a) real CPU contexts
-        kd = {"vk": X.Kernel(args=[X.Arg(X.Int32, name="n"), X.Arg(X.Float64, pointer=True, name="y"), X.Arg(X.Int32, pointer=True, name="cnt")], n_threads="n")}
-        for omp in (0, 2):
-            ctx = X.ContextCpu(omp_num_threads=omp)
-            ctx.add_kernels(sources=[KSRC], kernels=kd)
-            tgt = "cpu_openmp" if omp else "cpu_serial"
-            for n in ns:
-                m = n + 3
-                y = np.arange(m, dtype=np.float64) * 0.5
-                cnt = np.zeros(m, dtype=np.int32)
-                y0 = list(y)
-                ctx.kernels.vk(n=n, y=y, cnt=cnt)
-                evals += 1
-                distinct.add((tgt, n))
-                if list(cnt) != [1] * n + [0] * 3 or list(y) != expected(n, tgt, y0):
-                    bad(f"run:{tgt}", target=tgt, n=n, counts=list(map(int, cnt))[:12], y=list(y)[:6], expected_y=expected(n, tgt, y0)[:6])
-        # ---- (b) host simulation of the GPU forms with the real launch geometry
-        for tgt in ("opencl", "cuda"):
-            text = specialize_source(KSRC, specialize_for=tgt)
-            lib, ffi = host_sim(tmp, tgt, text, f"verif_c16_{tgt}_{os.getpid()}")
-            for n in ns:
-                for B in (blocks if tgt == "cuda" else [None]):
-                    m = n + 3 + (B or 0)
+        # the bound of a vectorised block is any C expression without blanks, not only an identifier
+        for li, (lim, limf) in enumerate((("n", lambda n: n), ("n-1", lambda n: n - 1), ("(n+1)/2", lambda n: (n + 1) // 2), ("n*2/2", lambda n: n))):
+            ksrc = KSRC.replace("//vectorize_over ii n", f"//vectorize_over ii {lim}")
+            # ---- (a) real CPU contexts
+            kd = {"vk": X.Kernel(args=[X.Arg(X.Int32, name="n"), X.Arg(X.Float64, pointer=True, name="y"), X.Arg(X.Int32, pointer=True, name="cnt")], n_threads="n")}
+            for omp in (0, 2):
+                ctx = X.ContextCpu(omp_num_threads=omp)
+                ctx.add_kernels(sources=[ksrc], kernels=kd)
+                tgt = "cpu_openmp" if omp else "cpu_serial"
+                for n in ns:
+                    m = n + 3
                     y = np.arange(m, dtype=np.float64) * 0.5
                     cnt = np.zeros(m, dtype=np.int32)
                     y0 = list(y)
-                    py, pc = ffi.cast("double*", ffi.from_buffer(y)), ffi.cast("int*", ffi.from_buffer(cnt))
-                    if tgt == "opencl":
-                        lib.launch_ocl(n, py, pc)
-                    else:
-                        lib.launch_cuda(n, int(cuda_grid(n, B)), B, py, pc)
+                    ctx.kernels.vk(n=n, y=y, cnt=cnt)
                     evals += 1
-                    distinct.add((tgt, n, B))
-                    if list(cnt[:n]) != [1] * n or any(cnt[n:]) or list(y) != expected(n, tgt, y0):
-                        bad(f"run:{tgt}", target=tgt, n=n, block=B, counts=list(map(int, cnt))[:12], y=list(y)[:6], expected_y=expected(n, tgt, y0)[:6])
-            if len(samples) < 2:
-                samples.append({"target": tgt, "specialised_source": text[:600]})
+                    distinct.add((tgt, n, lim))
+                    L = max(0, limf(n))
+                    if list(cnt) != [1] * L + [0] * (m - L) or list(y) != expected(L, tgt, y0):
+                        bad(f"run:{tgt}", target=tgt, n=n, limit=lim, counts=list(map(int, cnt))[:12], y=list(y)[:6], expected_y=expected(L, tgt, y0)[:6])
+            # ---- (b) host simulation of the GPU forms with the real launch geometry
+            for tgt in ("opencl", "cuda"):
+                text = specialize_source(ksrc, specialize_for=tgt)
+                lib, ffi = host_sim(tmp, tgt, text, f"verif_c16_{tgt}_{li}_{os.getpid()}")
+                for n in ns:
+                    for B in (blocks if tgt == "cuda" else [None]):
+                        m = n + 3 + (B or 0)
+                        y = np.arange(m, dtype=np.float64) * 0.5
+                        cnt = np.zeros(m, dtype=np.int32)
+                        y0 = list(y)
+                        py, pc = ffi.cast("double*", ffi.from_buffer(y)), ffi.cast("int*", ffi.from_buffer(cnt))
+                        L = max(0, limf(n))  # the number of threads the kernel description asks for is the block's bound
+                        if tgt == "opencl":
+                            lib.launch_ocl2(n, L, py, pc)
+                        else:
+                            lib.launch_cuda(n, int(cuda_grid(L, B)), B, py, pc)
+                        evals += 1
+                        distinct.add((tgt, n, B, lim))
+                        if list(cnt[:L]) != [1] * L or any(cnt[L:]) or list(y) != expected(L, tgt, y0):
+                            bad(f"run:{tgt}", target=tgt, n=n, limit=lim, block=B, counts=list(map(int, cnt))[:12], y=list(y)[:6], expected_y=expected(L, tgt, y0)[:6])
+                if len(samples) < 2:
+                    samples.append({"target": tgt, "specialised_source": text[:600]})
         # ---- (c) text-level: pass-through, context lines, include files (incl. context lines inside an included file)
         hdr = os.path.join(tmp, "inc_verif.h")
         with open(hdr, "w") as fh:
